@@ -122,3 +122,61 @@ Proof.
   intros R Lk Lv Hc Hm Hl Hw He I.
   apply (appended_images _ _ _ _ (put_effects fuel s h k v _ R Lk Lv Hc Hm Hl Hw He) I).
 Qed.
+
+(* ---------- opening a file writes nothing, except possibly one cut of a torn tail ---------- *)
+Fixpoint no_writes (c : stmt) : bool :=
+  match c with
+  | SWrite _ | STruncate _ => false
+  | SSeq a b | SIf _ a b | SWhile a _ b => no_writes a && no_writes b
+  | SCall a | SCallRet a => no_writes a
+  | STryElse a b c0 => no_writes a && no_writes b && no_writes c0
+  | _ => true
+  end.
+
+Lemma wloop_eff_nil ec eb fc fb x : (forall s, fc s = []) -> (forall s, fb s = []) -> forall n s, wloop_eff ec eb fc fb x n s = [].
+Proof.
+  intros Hc Hb. induction n as [|n IH]; intros s; [reflexivity|]. cbn [wloop_eff].
+  destruct (ec s) as [s1 o]. rewrite Hc. destruct o; try reflexivity. destruct (lookup_env (locals s1) x); [|reflexivity].
+  destruct (truthy v); [|reflexivity]. destruct (eb s1) as [s2 o2]. rewrite Hb. destruct o2; try reflexivity. apply IH.
+Qed.
+
+Lemma no_writes_no_effects fuel : forall c s, no_writes c = true -> effects fuel c s = [].
+Proof.
+  induction c as [ |a IHa b IHb|x e|a e|k v|cnd a IHa b IHb|cnd IHcnd x body IHbody| |z|e|e|e|x|x n|e|e| |w|x h d|body IHbody|body IHbody
+                 |body IHbody handler IHh els IHe| ]; intros s H; cbn [effects no_writes] in *; try reflexivity; try discriminate.
+  - apply andb_prop in H. destruct H as [Ha Hb]. destruct (exec fuel a s) as [s1 o]. rewrite IHa by exact Ha.
+    destruct o; try reflexivity. apply IHb; exact Hb.
+  - apply andb_prop in H. destruct H as [Ha Hb]. destruct (eval s cnd) as [v|]; [|reflexivity]. destruct (truthy v); [apply IHa|apply IHb]; assumption.
+  - apply andb_prop in H. destruct H as [Ha Hb]. apply wloop_eff_nil; intros s0; [apply IHcnd|apply IHbody]; assumption.
+  - apply IHbody; exact H.
+  - apply IHbody; exact H.
+  - apply andb_prop in H. destruct H as [H Hc]. apply andb_prop in H. destruct H as [Ha Hb].
+    destruct (exec fuel body s) as [s1 o]. rewrite IHbody by exact Ha. destruct o; try reflexivity; [apply IHe|apply IHh]; assumption.
+Qed.
+
+(* effects of a statement whose writes are confined to its last part *)
+Lemma effects_seq_pure fuel a b s : no_writes a = true ->
+  effects fuel (SSeq a b) s = (let '(s1, o) := exec fuel a s in match o with ONormal => effects fuel b s1 | _ => [] end).
+Proof. intros H. cbn [effects]. destruct (exec fuel a s) as [s1 o]. rewrite (no_writes_no_effects fuel a s H). reflexivity. Qed.
+
+Definition at_most_one_cut (l : list effect) : Prop := l = [] \/ exists n, l = [ET n].
+
+Lemma effects_if_truncate fuel c e s : at_most_one_cut (effects fuel (SIf c (STruncate e) SSkip) s).
+Proof.
+  cbn [effects]. destruct (eval s c) as [v|]; [|left; reflexivity]. destruct (truthy v); [|left; reflexivity].
+  destruct (s_closed (strm s)); [left; reflexivity|]. destruct (eval s e) as [[]|]; try (left; reflexivity).
+  destruct (s_wr (strm s)); [right; eexists; reflexivity|left; reflexivity].
+Qed.
+
+(* map_blocks: every statement before the final `if pos < size and writable: truncate(pos)` is free of writes *)
+Theorem map_blocks_effects fuel s : at_most_one_cut (effects fuel map_blocks_prog s).
+Proof.
+  unfold map_blocks_prog.
+  repeat (rewrite effects_seq_pure by reflexivity;
+          match goal with |- at_most_one_cut (let '(s1, o) := ?x in _) => destruct x as [? []]; try (left; reflexivity) end).
+  apply effects_if_truncate.
+Qed.
+
+(* read_header writes nothing; so opening a handle (read_header; map_blocks) changes the file by at most one cut *)
+Theorem read_header_effects fuel s : effects fuel read_header_prog s = [].
+Proof. apply no_writes_no_effects. reflexivity. Qed.
